@@ -27,6 +27,34 @@ def only_loop_controls(fd, ins):
     return other
 
 
+def loop_iterator_narrowing(fd, ins):
+    """element-dropping adaptors (filter, skip, take, ...) on the iterators of the loops that control `ins`"""
+    out = []
+    for sw, cal, d in controlling_sources(fd, ins):
+        if d is None or d.kind != "call" or not (d.decl == NEXT or d.callee == NEXT or (d.callee or "").endswith("::next")):
+            continue
+        a = d.args[0]
+        if a.place is None:
+            continue
+        for base in (fd.bases(a.place.local) or {a.place.local}):
+            for df in fd.defs.get(base, ()):
+                i2 = df.instr
+                if df.kind == "assign" and i2 is not None and i2.rv_kind() == "use" and i2.ops:
+                    i2 = direct_def_instr(fd, i2.ops[0])
+                    if i2 is None or i2.kind != "call":
+                        continue
+                    df_kind = "call-dest"
+                else:
+                    df_kind = df.kind
+                if df_kind == "call-dest" and i2 is not None and (i2.decl or "").endswith("IntoIterator::into_iter"):
+                    out += narrowing_calls(fd, i2, 0)
+                elif df_kind == "call-dest" and i2 is not None:
+                    if any((i2.callee or "").endswith(n) or (i2.decl or "").endswith(n) for n in NARROWING):
+                        out.append(i2)
+                    out += narrowing_calls(fd, i2, 0) if i2.args else []
+    return out
+
+
 def field_tables(ctx):
     aggregate_fields(ctx, "R1.trip-view", J("departure_segments_to_json"), J("JsonDepartureSegmentWithFormation"), {
         "departure_segment": [call(ST_ID)],
@@ -108,13 +136,19 @@ def completeness(ctx):
             ctx.bad(o, "no push of a %s found" % what)
             continue
         bad = []
+        narrowed = []
         for p in pushes:
             oth = only_loop_controls(fd, p)
             if oth:
                 bad.append((p, oth))
-        ctx.decide(o, not bad, "%d push(es), controlled only by the loop" % len(pushes),
-                   "the push at %s is skipped under an extra condition at %s" % (bad[0][0].line(), bad[0][1][0][0].line()) if bad else "",
-                   loc=bad[0][0].line() if bad else None)
+            narrowed += loop_iterator_narrowing(fd, p)
+        if bad:
+            ctx.bad(o, "the push at %s is skipped under an extra condition at %s" % (bad[0][0].line(), bad[0][1][0][0].line()), loc=bad[0][0].line())
+        elif narrowed:
+            ctx.bad(o, "the loop feeding the push iterates a narrowed sequence (%s at %s): some %ss are never reported" % (
+                (narrowed[0].callee or "").split("::")[-1], narrowed[0].line(), what), loc=narrowed[0].line())
+        else:
+            ctx.ok(o, "%d push(es), controlled only by a loop over the un-narrowed sequence" % len(pushes))
 
 
 def dead_heads(ctx):
@@ -202,6 +236,12 @@ def rules(ctx):
     completeness(ctx)
     formations_in_step(ctx)
     dead_heads(ctx)
+    # "with the input's own origin, destination and times": the model the output is read from is the input (shared with C17)
+    from .C17 import loader_subset, getters
+    loader_subset(ctx, ["create_service_trip.", "create_service_trip-positional", "create_maintenance.", "create_maintenance-positional"])
+    before = len(ctx.obligations)
+    getters(ctx)
+    ctx.obligations[before:] = [o for o in ctx.obligations[before:] if any(k in o.id for k in ("start_time", "end_time", "start_location", "end_location"))]
     o, fd = ctx.require_fn("R5.output-same-solution", "T4", OUT, "schedule and objective value in the answer come from the same evaluated solution")
     if fd is not None:
         a = calls_to(fd, JS + "::schedule_to_json")
